@@ -33,14 +33,24 @@ CFGV = [
     {"usage_rules": "norefresh", "c1_rules": "partial", "revocation": None},
     # resource indicators: a policy with empty kwargs on the authorization endpoint, a per-client entry without policy
     {"usage_rules": True, "c1_rules": None, "revocation": None, "ri": True},
+    # token exchange (access tokens may be exchanged); one client with a token-exchange configuration of its own
+    {"usage_rules": True, "c1_rules": None, "revocation": None, "xchg": True},
 ]
 STATS = {"requests": 0, "static_roots": 0, "aliases": {}}
 
 
 def make_runner(v, oidc=True, jwt=False):
     cfg = CFGV[v]
-    R = prov.Runner(oidc, jwt, usage=None)
+    R = prov.Runner(oidc, jwt if not cfg.get("xchg") else False, usage="exchange" if cfg.get("xchg") else None)
     ctx = R.s.context
+    if cfg.get("xchg"):
+        from idpyoidc.server.oauth2.token_helper import validate_token_exchange_policy
+        U = "urn:ietf:params:oauth:token-type:%s_token"
+        ctx.cdb["client_2"]["token_exchange"] = {"subject_token_types_supported": [U % "access", U % "refresh"], "requested_token_types_supported": [U % "access"],
+                                                 "default_requested_token_type": U % "access", "policy": {"": {"function": validate_token_exchange_policy, "kwargs": {"scope": ["openid", "email"]}}}}
+    # the introspection endpoint enforces the audience restriction; one client (a resource server) has it switched off for itself
+    R.s.get_endpoint("introspection").enforce_aud_restriction = True
+    ctx.cdb["client_2"]["enforce_audience_restriction"] = False
     if not cfg["usage_rules"]:
         ctx.authz.grant_config.pop("usage_rules", None)
     elif cfg["usage_rules"] == "norefresh":
@@ -72,6 +82,11 @@ def static_roots(R):
         for k, v in vars(ep).items():
             if k != "upstream_get":
                 roots.append((f"endpoint.{name}.{k}", v))
+        # the token endpoint's helpers (one object per grant type) hold configuration of their own
+        for gt, h in (getattr(ep, "grant_type_helper", None) or {}).items():
+            for a, v in vars(h).items():
+                if a not in ("endpoint", "upstream_get"):
+                    roots.append((f"endpoint.{name}.helper[{gt}].{a}", v))
     for k, h in ctx.session_manager.token_handler.handler.items():
         for a, v in vars(h).items():
             if a not in ("upstream_get", "crypt", "cdb"):
@@ -253,6 +268,13 @@ def impl(c):
 
     # the history is generated against the live provider (handles are real), snapshots are taken after every request
     ops, _ = prov.gen_adaptive(rng, c["n"], c["oidc"], c["jwt"], weights={"revokeEp": 12, "userinfo": 12}, runner=R, on_step=after)
+    if CFGV[c["v"]].get("xchg"):
+        # token exchange by the client with a configuration of its own, then by the others (whatever tokens there are)
+        acc = [R.h[t.value] for hg, (g, path) in R.gobj.items() for t in g.issued_token if prov.CLS.get(type(t)) == "access"]
+        for i, cl in enumerate(["client_2", "client_1", "client_3", "client_2", "client_1"]):
+            if acc:
+                o = ["exchange", cl, rng.choice(acc), "access", rng.choice([None, "access", "refresh"]), None]
+                after(len(ops) + i, o, R.op(o), R)
     if CFGV[c["v"]].get("ri"):
         # authorization requests with a resource parameter, by each client in turn
         for i, cl in enumerate(["client_1", "client_2", "client_3", "client_2"]):
